@@ -425,6 +425,30 @@ def scenario_hint(job, variant, prev_lines, hops, via_json=False):
             cs = simenv.parse_commands(lines)
             coq_hops.append("([%s], %s)" % ("; ".join(rec.cmd(c) for c in cs), obs(got)))
             prev_plan, hist = new_plan, got
+    # a second editing session in the SAME process under a sibling environment (same job and skills, other armour / mob level / main
+    # stats: the same commands mostly give the same actions and events, hence the same log hashes, but other damage figures): whatever
+    # the first session left behind in the process must not reach it.  Outside the recorded flow.
+    if hops:
+        import yaml
+        envb = json.loads(simenv.get_env(job, variant).model_dump_json())
+        envb["armor"] = 120 if envb.get("armor") != 120 else 250
+        envb["mob_level"] = 250 if envb.get("mob_level") != 250 else 265
+        envb["character"]["stat"]["ignored_defence"] = 90.0      # a positive armour factor: damage figures that do depend on the environment
+        for k in ("STR", "DEX", "INT", "LUK"):
+            envb["character"]["stat"][k] = envb["character"]["stat"].get(k, 0) + 777
+        def text_b(lines):
+            return "---\n" + yaml.safe_dump({"author": "verif", "environment": envb}, allow_unicode=True) + "\n---\n" + "\n".join(lines)
+        pb = prev_lines if len(hops) == 1 else hops[-2]
+        hist_b = run_plan(text_b(pb))
+        got_b, want_b = run_plan_with_hint(text_b(pb), hist_b, text_b(hops[-1])), run_plan(text_b(hops[-1]))
+        if resp_json(got_b) != resp_json(want_b):
+            gj, wj = resp_json(got_b), resp_json(want_b)
+            k = next((k for k, (a, b) in enumerate(zip(gj, wj)) if a != b), min(len(gj), len(wj)))
+            fields = [f for f in wj[k] if k < len(gj) and gj[k].get(f) != wj[k].get(f)] if k < len(wj) else []
+            mism.append({"hop": len(hops) - 1, "first_differing_log": k, "differing_fields": fields, "previous_plan": pb, "new_plan": hops[-1],
+                         "via_json": False, "transport": "in memory; second session of the process, sibling environment",
+                         "sibling_environment": {"armor": envb["armor"], "mob_level": envb["mob_level"], "main stats": "+777"},
+                         "first_session": {"previous_plan": prev_lines, "hops": hops}})
     txt = (HEADER + rec.tables() +
            "Definition init : list Ilog := %s.\nDefinition pcs : list Icmd := [%s].\n"
            "Definition hops : list (list Icmd * list (nat * Icmd * list (Q * IAct * list N * N * option N) * option N)) := [%s].\n"
